@@ -45,6 +45,7 @@ fn main() {
                 "cmp-table" => drive_ops::cmp_table(&mut out),
                 "c14" => drive_ops::drive_c14(seed, thorough, &mut out),
                 "c02pairs" => drive_ops::drive_c02pairs(seed, thorough, &mut out),
+                "c15" => drive_ops::drive_c15(seed, thorough, &mut out),
                 _ => panic!("unknown family"),
             };
             out.flush().unwrap();
